@@ -145,6 +145,29 @@ pub fn seeds() -> Vec<Seed> {
             }
         }
     }
+    // ANSI files with several sixel images: two that do not cover each other, then one that covers both (and the reverse order)
+    {
+        let img = |row: u32, col: u32, w: u32, bands: u32| {
+            let mut b = format!("\x1b[{row};{col}H\x1bPq#1;2;100;0;0").into_bytes();
+            for _ in 0..bands {
+                b.extend(format!("#1!{w}~-").as_bytes());
+            }
+            b.extend(b"\x1b\\");
+            b
+        };
+        let mut f = Vec::new();
+        f.extend(img(1, 1, 8, 3));
+        f.extend(img(1, 3, 8, 3));
+        f.extend(img(1, 1, 64, 6));
+        f.extend(b"text after the images\r\n");
+        add("ans with three sixel images (third covers two)".into(), Kind::File("ans"), f);
+        let mut f = Vec::new();
+        f.extend(img(1, 1, 64, 6));
+        f.extend(img(1, 1, 8, 3));
+        f.extend(img(2, 3, 8, 3));
+        f.extend(img(1, 1, 64, 6));
+        add("ans with four sixel images (big, two small inside, big again)".into(), Kind::File("ans"), f);
+    }
     // hand-built streams for the text loaders
     add("seq hand-built".into(), Kind::File("seq"), b"\x93HELLO\x0d\x12REV\x92\x1bQ\x11\x9d\x1d\x05".to_vec());
     add("ata hand-built".into(), Kind::File("ata"), b"\x7dHELLO\x9b\x1b\x1cWORLD\x9c\x9d\xfe\xff\x1e\x1f".to_vec());
